@@ -235,3 +235,111 @@ def check_no_memoised(rep, prog, rule, module_prefixes, what):
         rep.fail(rule, f.qual, f.node, "%s is memoised by a decorator: %s" % (f.qual, what), node=f.node, file=f.module.rel)
     if not fs:
         rep.ok(rule, "no decoder function under %s is memoised across calls" % ", ".join(module_prefixes or ["modules/"]))
+
+
+def _emptiness_test_of(test):
+    """names G for which `test` is a 'not loaded yet' test: not G / G is None / len(G) == 0 / not len(G)"""
+    out = set()
+    for n in ast.walk(test):
+        if isinstance(n, ast.UnaryOp) and isinstance(n.op, ast.Not):
+            o = n.operand
+            if isinstance(o, ast.Name):
+                out.add(o.id)
+            if isinstance(o, ast.Call) and isinstance(o.func, ast.Name) and o.func.id == "len" and o.args and isinstance(o.args[0], ast.Name):
+                out.add(o.args[0].id)
+        if isinstance(n, ast.Compare) and len(n.ops) == 1:
+            l, r = n.left, n.comparators[0]
+            if isinstance(n.ops[0], (ast.Is, ast.Eq)) and isinstance(l, ast.Name) and isinstance(r, ast.Constant) and r.value is None:
+                out.add(l.id)
+            if isinstance(n.ops[0], ast.Eq) and isinstance(l, ast.Call) and isinstance(l.func, ast.Name) and l.func.id == "len" \
+                    and l.args and isinstance(l.args[0], ast.Name) and isinstance(r, ast.Constant) and r.value == 0:
+                out.add(l.args[0].id)
+    return out
+
+
+def _content_reads(stmt, g):
+    """places in stmt that look into the container named g (a bare alias `x = g` is not one: it names the same object)"""
+    out = []
+    for n in ast.walk(stmt):
+        if isinstance(n, ast.Subscript) and isinstance(n.value, ast.Name) and n.value.id == g and isinstance(n.ctx, ast.Load):
+            out.append(n)
+        elif isinstance(n, ast.Call) and isinstance(n.func, ast.Attribute) and isinstance(n.func.value, ast.Name) and n.func.value.id == g:
+            out.append(n)
+        elif isinstance(n, ast.Compare) and any(isinstance(op, (ast.In, ast.NotIn)) for op in n.ops) and \
+                any(isinstance(c, ast.Name) and c.id == g for c in n.comparators):
+            out.append(n)
+        elif isinstance(n, (ast.For, ast.comprehension)) and isinstance(n.iter, ast.Name) and n.iter.id == g:
+            out.append(n if isinstance(n, ast.For) else n.iter)
+    return out
+
+
+def check_lazy_init_order(rep, prog, rule):
+    """a module-level table that is filled on first use (`if not TABLE: load()`) is looked into only after that test: a look-up
+    made before it sees the empty table in the first call of a process and the loaded one in every later call"""
+    n_idioms = 0
+    for m in prog.modules.values():
+        globs = set()
+        for st in m.tree.body:
+            if isinstance(st, (ast.Assign, ast.AnnAssign)):
+                for t in (st.targets if isinstance(st, ast.Assign) else [st.target]):
+                    if isinstance(t, ast.Name):
+                        globs.add(t.id)
+        if not globs:
+            continue
+        for f in m.all_functions():
+            local = {a.arg for a in f.node.args.args + f.node.args.kwonlyargs + f.node.args.posonlyargs}
+            for x in ast.walk(f.node):
+                if isinstance(x, ast.Name) and isinstance(x.ctx, ast.Store):
+                    local.add(x.id)
+            declared = {nm for x in ast.walk(f.node) if isinstance(x, ast.Global) for nm in x.names}
+            local -= declared
+
+            def visit(block, before):
+                nonlocal n_idioms
+                for i, st in enumerate(block):
+                    if isinstance(st, ast.If):
+                        lazy = {g for g in _emptiness_test_of(st.test) if g in globs and g not in local}
+                        if lazy and any(isinstance(c, ast.Call) for b in st.body for c in ast.walk(b)):
+                            n_idioms += 1
+                            for g in sorted(lazy):
+                                early = [r for p in before + block[:i] for r in _content_reads(p, g)]
+                                rep.check(not early, rule, "%s: %s is looked into only after its load-on-first-use test" % (f.qual, g),
+                                          f.qual, early[0] if early else st,
+                                          "%s is looked into (%s) before the 'if %s:' test that loads it on first use: the first call of a "
+                                          "process sees the empty table, every later call the loaded one" % (
+                                              g, ast.unparse(early[0])[:60] if early else "", ast.unparse(st.test)[:40]),
+                                          node=early[0] if early else st, file=m.rel)
+                    for fld in ("body", "orelse", "finalbody"):
+                        sub = getattr(st, fld, None)
+                        if isinstance(sub, list) and sub and isinstance(sub[0], ast.stmt) and not isinstance(st, (ast.FunctionDef, ast.ClassDef)):
+                            visit(sub, before + block[:i])
+                    for h in getattr(st, "handlers", []) or []:
+                        visit(h.body, before + block[:i])
+            visit(f.node.body, [])
+    rep.count("load-on-first-use idioms", n_idioms)
+
+
+def check_text_decoding(rep, prog, rule, module_prefix, what):
+    """the definition files (string files, header tables) are read as text the way they were written: a text-mode open()
+    that names another character set, or an error policy that drops / replaces what does not decode, shows names and
+    messages with characters lost or changed"""
+    n = 0
+    for cs in call_sites(prog):
+        if not cs.module.name.startswith(module_prefix) or cs.name not in ("open", "builtins.open", "io.open", "codecs.open"):
+            continue
+        mode = open_mode(cs.node)
+        if mode is not None and "b" in mode:
+            continue
+        n += 1
+        kws = {k.arg: k.value for k in cs.node.keywords}
+        pos = cs.node.args
+        enc = kws.get("encoding", pos[3] if len(pos) > 3 else None)
+        err = kws.get("errors", pos[4] if len(pos) > 4 else None)
+        enc_ok = enc is None or (isinstance(enc, ast.Constant) and (enc.value is None or str(enc.value).lower().replace("_", "-") in ("utf-8", "utf8", "utf-8-sig")))
+        err_ok = err is None or (isinstance(err, ast.Constant) and err.value in (None, "strict"))
+        rep.check(enc_ok and err_ok, rule, "%s:%s %s is read as UTF-8 / locale text with strict decoding" % (cs.where, cs.node.lineno, what), cs.where,
+                  cs.node, "%s is opened with %s: characters outside that character set are dropped or shown as other characters in the "
+                  "names / messages taken from the file" % (what, ", ".join("%s=%s" % (k_, ast.unparse(v_)) for k_, v_ in (("encoding", enc), ("errors", err)) if v_ is not None)),
+                  node=cs.node, file=cs.module.rel)
+    rep.count("text-mode open() calls checked for their decoding", n)
+    return n
